@@ -95,10 +95,12 @@ class World:
         if n.job_state is not None and n.job_state.finished:
             out.append('its job thread ended')
         # its own 370 ms timer: calls on the grid t_reg + k * 0.37 (within 2 ms), none missing up to now, none extra
-        exp = int((self.sim.now - b['t_reg'] - 0.003) / 0.37)
+        exp = int((self.sim.now - b['t_reg'] - 0.025) / 0.37)
         tk = b['ticks']
-        # (epoch-scale floats: every `deadline += delta` of the library rounds by up to 1.2e-7 s, in either direction)
-        bad = [t for k, t in enumerate(tk) if not (-(2e-6 + 3e-7 * (k + 1)) <= t - (b['t_reg'] + (k + 1) * 0.37) <= 0.002 + 1e-4 * (k + 1))]
+        # (epoch-scale floats: every `deadline += delta` of the library rounds by up to 1.2e-7 s, in either direction; late by up to 20 ms:
+        #  a long chain of zero-latency handlers is ONE event of the driver, during which the virtual clock advances by its ticks -- several
+        #  milliseconds for a 255-packet exchange -- and no other thread is resumed; state shared between objects shows as whole periods)
+        bad = [t for k, t in enumerate(tk) if not (-(2e-6 + 3e-7 * (k + 1)) <= t - (b['t_reg'] + (k + 1) * 0.37) <= 0.02 + 1e-4 * (k + 1))]
         if bad or len(tk) < exp or len(tk) > exp + 1:
             out.append('its own 370 ms timer was called %d times in %.3f s (expected %d), off-grid calls at %s' % (len(tk), self.sim.now - b['t_reg'], exp, [round(t, 4) for t in bad[:3]]))
         return out
